@@ -17,7 +17,7 @@ def run_one(m, tier="quick"):
         res = []
         ok = True
         for prop in m["properties"]:
-            env = dict(os.environ, YV_EVIDENCE_DIR=os.path.join(tmp, "ev"))
+            env = dict(os.environ, YV_EVIDENCE_DIR=os.path.join(tmp, "ev"), YV_CACHE_DIR=os.path.join(tmp, "cache"))     # a mutant's artefacts go away with its scratch copy
             t = time.time()
             r = subprocess.run([os.path.join(VERIF, "bin", "check"), prop, "--tier", tier, "--root", tmp], capture_output=True, text=True, env=env)
             exp = 1 if m["expect"] == "violation" else 0
